@@ -473,6 +473,38 @@ def r2(ctx):
            + (f", e.g. {w!r}" if w is not None else ""), loc, {"states": bad, "word": repr(w)})
 
 
+@rule("R-C06-10", min_instances=6, title="validation is history-free: the verdict on a payload is the same whatever was validated before it in the process (folded on constant sequences of payloads: refused-then-valid, truncated-then-continuation, valid-then-valid)")
+def r10(ctx):
+    from ..absint import Config, Interp
+    idx = ctx.index
+    I = Interp(idx, Config())
+    loc = idx.loc(idx.func("_utils:validate_utf8").node) if "_utils:validate_utf8" in idx.functions else ""
+
+    def ok_utf8(b):
+        try:
+            b.decode("utf-8")
+            return True
+        except UnicodeDecodeError:
+            return False
+
+    seqs = [(b"price \xe2\x82", b"hello"), (b"price \xe2\x82", b"\xac 5"), (b"\xf0\x9f", b"\x98\x80"), (b"\xff", b"plain"), (b"ok", b"\xe2\x82\xac"),
+            (b"\xe2\x82\xac", b"\x80"), (b"\xc3", b"\xa9"), (b"", b"\xc3\xa9"), (b"\xed\xa0\x80", b"fine"), (b"\xe2", b"\xe2\x82\xac")]
+    for first, second in seqs:
+        def body(run, first=first, second=second):
+            f = _utils_fn(ctx, I, "_validate_utf8")
+            r1 = I.call(run, f, [C(first)], {}, None)
+            r2 = I.call(run, f, [C(second)], {}, None)
+            return Tup((r1, r2))
+        outs = ctx.count_paths(I.explore(body))
+        if len(outs) != 1 or outs[0].kind != "return" or not all(isinstance(x, C) for x in outs[0].value.items):
+            raise AnalysisError(f"validator on constants {first!r}, {second!r} does not fold: {[(o.kind, o.exc_class or o.note) for o in outs][:2]}")
+        got = tuple(bool(x.v) for x in outs[0].value.items)
+        want = (ok_utf8(first), ok_utf8(second))
+        ctx.ob(f"_utils:_validate_utf8:sequence:{first!r},{second!r}", got == want, f"verdicts {got}" if got == want else
+               f"validating {first!r} and then {second!r} gives {got}, each payload on its own is {want}: the verdict on the second payload depends on what was validated before it "
+               f"(state of the validator survives the call)", loc)
+
+
 def _leaves(ctx, state, fire, skip):
     key = f"c06:{state}:{fire!r}:{skip!r}"
     if key not in ctx.cache:
@@ -594,3 +626,9 @@ def r8(ctx):
     from .c01 import r8 as trace_equivalence
     trace_equivalence(ctx)
 
+
+
+@rule("R-C06-9", min_instances=1, title="every payload is validated from the start state: the validator keeps nothing between calls (no module-level validator object whose automaton state survives a refused payload)")
+def r_sib_r_c06_9(ctx):
+    from .c12 import r9 as no_hidden_sharing
+    no_hidden_sharing(ctx, modules=("_utils", "_abnf", "_core"))
